@@ -7,14 +7,28 @@ import DosModel.Proofs.Handlers
 namespace Dos.Handlers
 
 /-! exchangePub -/
-theorem xpubBatch_total (b : List Elem) : ∀ k o, xpubBatch Cfg.all b k = .error o → o.isPanic = false := by
+theorem xpubBatch_err (n : Nat) (b : List Elem) : ∀ k o, xpubBatch Cfg.all n b k = .error o → o.isPanic = false ∧ ∀ i, o ≠ .ok i := by
   induction b with
   | nil => intro k o h; simp [xpubBatch] at h
   | cons e r ih =>
     intro k o h
     cases e with
-    | good i => exact ih _ _ (by simpa [xpubBatch] using h)
-    | other => simp [xpubBatch] at h; cases h; rfl
+    | other => simp [xpubBatch] at h; cases h; exact ⟨rfl, fun i hh => by cases hh⟩
+    | good idx sender hasKey =>
+      simp only [xpubBatch, all_xpubIdx, Bool.true_and] at h
+      split at h
+      · cases h; exact ⟨rfl, fun i hh => by cases hh⟩
+      · next hg =>
+        simp only [Bool.or_eq_true, Bool.not_eq_true', decide_eq_true_eq, not_or] at hg
+        have h1 : hasKey = true := by cases hasKey <;> simp_all
+        have h2 : ¬ idx ≥ n := hg.2
+        simp only [h1, Bool.not_true, Bool.false_eq_true, if_false, h2] at h
+        split at h
+        · cases h; exact ⟨rfl, fun i hh => by cases hh⟩
+        · exact ih _ _ h
+
+theorem xpubBatch_total (n : Nat) (b : List Elem) (k : Nat) (o : Out) (h : xpubBatch Cfg.all n b k = .error o) : o.isPanic = false :=
+  (xpubBatch_err n b k o h).1
 
 theorem xpubLoop_total (n : Nat) (bs : List (List Elem)) : ∀ k, (xpubLoop Cfg.all n bs k).isPanic = false := by
   induction bs with
@@ -22,8 +36,8 @@ theorem xpubLoop_total (n : Nat) (bs : List (List Elem)) : ∀ k, (xpubLoop Cfg.
   | cons b r ih =>
     intro k
     simp only [xpubLoop]
-    cases h : xpubBatch Cfg.all b k with
-    | error o => exact xpubBatch_total b k o h
+    cases h : xpubBatch Cfg.all n b k with
+    | error o => exact xpubBatch_total n b k o h
     | ok k' =>
       simp only
       split
@@ -33,16 +47,7 @@ theorem xpubLoop_total (n : Nat) (bs : List (List Elem)) : ∀ k, (xpubLoop Cfg.
 theorem exchangePub_total (n : Nat) (self : Elem) (bs : List (List Elem)) : (exchangePub Cfg.all n self bs).isPanic = false := by
   cases self with
   | other => simp [exchangePub]
-  | good i => exact xpubLoop_total n bs 1
-
-theorem xpubBatch_err_not_ok (b : List Elem) : ∀ k o, xpubBatch Cfg.all b k = .error o → ∀ i, o ≠ .ok i := by
-  induction b with
-  | nil => intro k o h; simp [xpubBatch] at h
-  | cons e r ih =>
-    intro k o h
-    cases e with
-    | good i => exact ih _ _ (by simpa [xpubBatch] using h)
-    | other => simp [xpubBatch] at h; cases h; intro i hh; cases hh
+  | good i sd hk => exact xpubLoop_total n bs 1
 
 /-- what exchangePub hands on has exactly `n` keys -/
 theorem xpubLoop_count (n : Nat) (bs : List (List Elem)) : ∀ k i, xpubLoop Cfg.all n bs k = .ok i → i = toString n := by
@@ -51,10 +56,10 @@ theorem xpubLoop_count (n : Nat) (bs : List (List Elem)) : ∀ k i, xpubLoop Cfg
   | cons b r ih =>
     intro k i h
     simp only [xpubLoop] at h
-    cases hb : xpubBatch Cfg.all b k with
+    cases hb : xpubBatch Cfg.all n b k with
     | error o =>
       rw [hb] at h; simp only at h
-      exact absurd h (xpubBatch_err_not_ok b k o hb i)
+      exact absurd h ((xpubBatch_err n b k o hb).2 i)
     | ok k' =>
       rw [hb] at h; simp only at h
       split at h
@@ -117,6 +122,10 @@ theorem gdkgLoop_spec (pubs : List PubMsg) : ∀ sl,
             | garbage => simp
             | own =>
               simp only
+              by_cases hc : sl.contains (some KeyTag.own) = true
+              · simp only [hc, if_true]
+                exact ⟨fun o h => by cases h; rfl, fun sl' h => by cases h⟩
+              simp only [hc, Bool.false_eq_true, if_false]
               have := ih (setSlot sl p.idx .own)
               refine ⟨this.1, fun sl' h => ?_⟩
               have h2 := this.2 sl' h
@@ -124,6 +133,10 @@ theorem gdkgLoop_spec (pubs : List PubMsg) : ∀ sl,
               simp; omega
             | peer j =>
               simp only
+              by_cases hc : sl.contains (some (.peer j)) = true
+              · simp only [hc, if_true]
+                exact ⟨fun o h => by cases h; rfl, fun sl' h => by cases h⟩
+              simp only [hc, Bool.false_eq_true, if_false]
               have := ih (setSlot sl p.idx (.peer j))
               refine ⟨this.1, fun sl' h => ?_⟩
               have h2 := this.2 sl' h
@@ -131,6 +144,10 @@ theorem gdkgLoop_spec (pubs : List PubMsg) : ∀ sl,
               simp; omega
             | identity =>
               simp only
+              by_cases hc : sl.contains (some KeyTag.identity) = true
+              · simp only [hc, if_true]
+                exact ⟨fun o h => by cases h; rfl, fun sl' h => by cases h⟩
+              simp only [hc, Bool.false_eq_true, if_false]
               have := ih (setSlot sl p.idx .identity)
               refine ⟨this.1, fun sl' h => ?_⟩
               have h2 := this.2 sl' h
